@@ -185,6 +185,16 @@ CHECKS.update({
             "DESIGN.md section 4, C15"),
 })
 
+CHECKS.update({
+    "C14": ("Hypothesis-generated RouteMap programs (documented DSL) over a fixed entity set, run through the shipped huawei/arista/cumulus back-ends; ACL, nesting, refs-subset-of-defs and error-atomicity oracles",
+            "Generated policies (conditions R.*, actions rule.*) for huawei and arista through _run_partial_generator with ACL enforcement "
+            "and for cumulus through generate_cumulus_rpl: no generator may fail its own ACL, every yielded row must be found under its "
+            "recorded block path in the parsed output, every list name a policy line refers to must be defined by the list generators "
+            "fed the same inputs, and an unsupported action must be refused before any of its lines is emitted. Exploration over programs.",
+            "Trusted: the refs/defs line classifiers in vf/props/c14.py; inputs respect the documented preconditions.",
+            "DESIGN.md section 4, C14"),
+})
+
 NOT_YET = {}
 
 
